@@ -8,6 +8,8 @@
 #include <QMutexLocker>
 #include <QObject>
 #include <QPointer>
+#include <QQueue>
+#include <QSharedPointer>
 #include <QThread>
 
 #include "handler.h"
@@ -43,17 +45,24 @@ public:
         if (m_thread)
             return *this;
 
+        // The event loop of the worker thread cannot run without an application object: Qt
+        // would never deliver a message to it. Logging stays synchronous in that case.
+        if (!qApp)
+            return *this;
+
         m_thread = new QThread();
 
-        if (qApp) {
-            // The thread object must be guaranteed to be attached to the main thread regardless of
-            // where this method was called from
-            if (qApp->thread() != m_thread->thread()) {
-                m_thread->moveToThread(qApp->thread());
-            }
-            QObject::connect(qApp, &QCoreApplication::aboutToQuit, m_thread,
-                             [this]() { resetOwnThread(); });
+        // The thread object must be guaranteed to be attached to the main thread regardless of
+        // where this method was called from
+        if (qApp->thread() != m_thread->thread()) {
+            m_thread->moveToThread(qApp->thread());
         }
+        m_aboutToQuitConnection = QObject::connect(qApp, &QCoreApplication::aboutToQuit, m_thread,
+                                                   [this]() { resetOwnThread(); });
+        // aboutToQuit is only emitted by exec(): an application object that goes away without
+        // having run its event loop has to stop the thread, too, while Qt is still alive
+        m_destroyedConnection = QObject::connect(qApp, &QObject::destroyed, m_thread,
+                                                 [this]() { resetOwnThread(); });
 
         QObject::connect(m_thread, &QThread::finished, m_thread, &QThread::deleteLater);
 
@@ -81,11 +90,20 @@ public:
         if (!m_thread)
             return;
 
-        while (m_pendingCount.loadAcquire() > 0) {
+        // Let the worker drain the queue while Qt still delivers events to it (it stops doing
+        // so once the QCoreApplication instance is gone)
+        while (m_pendingCount.loadAcquire() > 0 && QCoreApplication::instance()
+               && m_thread->isRunning()) {
             locker.unlock();
             QThread::msleep(10);
             locker.relock();
+            if (!m_thread)
+                return; // stopped by another caller in the meantime
         }
+
+        // The handler may be destroyed before the application object is
+        QObject::disconnect(m_aboutToQuitConnection);
+        QObject::disconnect(m_destroyedConnection);
 
         m_thread->quit();
 
@@ -96,6 +114,9 @@ public:
 
         m_thread.clear();
         m_worker = nullptr;
+
+        // Whatever the worker did not get to is processed here, in order
+        while (processNext()) { }
     }
 
     bool process(LogMessage &lmsg) override
@@ -103,8 +124,12 @@ public:
         QMutexLocker locker(&m_mutex);
 
         if (m_worker) {
+            {
+                QMutexLocker queueLocker(&m_queueMutex);
+                m_queue.enqueue(QSharedPointer<LogMessage>::create(lmsg));
+            }
             m_pendingCount.fetchAndAddOrdered(1);
-            QCoreApplication::postEvent(m_worker, new LogEvent(lmsg));
+            QCoreApplication::postEvent(m_worker, new LogEvent());
         } else {
             BaseHandler::process(lmsg);
         }
@@ -112,17 +137,31 @@ public:
     }
 
 private:
+    // Takes the oldest queued message, if any, and runs the wrapped handler on it
+    bool processNext()
+    {
+        QSharedPointer<LogMessage> lmsg;
+        {
+            QMutexLocker queueLocker(&m_queueMutex);
+            if (m_queue.isEmpty())
+                return false;
+            lmsg = m_queue.dequeue();
+        }
+        BaseHandler::process(*lmsg);
+        m_pendingCount.fetchAndSubOrdered(1);
+        return true;
+    }
+
+    // Wake-up for the worker: one event per queued message
     struct LogEvent : public QEvent
     {
-        LogEvent(const LogMessage &lmsg) : QEvent(type()), lmsg(lmsg) { }
+        LogEvent() : QEvent(type()) { }
 
         static QEvent::Type type()
         {
             static QEvent::Type _type = static_cast<QEvent::Type>(QEvent::registerEventType());
             return _type;
         }
-
-        LogMessage lmsg;
     };
 
     class Worker : public QObject
@@ -133,11 +172,7 @@ private:
         void customEvent(QEvent *event) override
         {
             if (event->type() == LogEvent::type()) {
-                auto logEvent = dynamic_cast<LogEvent *>(event);
-                if (logEvent) {
-                    m_handler->BaseHandler::process(logEvent->lmsg);
-                    m_handler->m_pendingCount.fetchAndSubOrdered(1);
-                }
+                m_handler->processNext();
             }
         }
 
@@ -150,6 +185,10 @@ private:
     Worker *m_worker = nullptr;
     QMutex m_mutex;
     QAtomicInt m_pendingCount;
+    QMutex m_queueMutex;
+    QQueue<QSharedPointer<LogMessage>> m_queue;
+    QMetaObject::Connection m_aboutToQuitConnection;
+    QMetaObject::Connection m_destroyedConnection;
 };
 
 } // namespace QtLogger
